@@ -190,8 +190,9 @@ func genCase(t *rapid.T) Case {
 	c.AccountsFaultEvery = rapid.SampledFrom([]uint64{0, 1, 2, 3}).Draw(t, "accountsFaultEvery")
 	c.FaultKind = rapid.SampledFrom([]string{"", "", "", "att-data", "att-sign", "att-submit", "sync-message", "subscription"}).Draw(t, "faultKind")
 	if c.FaultKind != "" {
-		// the whole second half of the run, or its third quarter and most of the fourth (then recovery)
-		c.FaultFrom = c.Epochs / 2
+		// from some point in the second quarter of the run to its end (or nearly: then recovery), so that
+		// each of the quarters the growth oracle compares sees more of the fault than the one before
+		c.FaultFrom = c.Epochs/4 + rapid.Uint64Range(0, c.Epochs/8).Draw(t, "faultFrom")
 		c.FaultLen = c.Epochs - c.FaultFrom
 		if rapid.Bool().Draw(t, "faultRecovers") {
 			c.FaultLen -= rapid.Uint64Range(2, 6).Draw(t, "recoveryEpochs")
